@@ -179,6 +179,22 @@ def eval_pipeline(case):
             if not np.all((fin >= 0) & (fin <= 1)):
                 return VIOL(dict(sgn, kind='range', col=k), '%s outside [0,1] with positive flank voltages' % k,
                             observed=got.tolist())
+    if not str(w).startswith('@') and o['burst_method'] == 'cycles':
+        # the consistency columns as recompute_edges re-writes them: one-sided definitions at the burst edges (oracle shared with C16)
+        from bycycle.burst import recompute_edges
+        from bcmc.props.C16 import check_edges
+        thr = S.call_kwargs(o)['threshold_kwargs']
+        out = recompute_edges(df.copy(), dict(thr))
+        v, _, _ = check_edges(df, out, thr, centre, True, dict(sgn, via='recompute_edges'))
+        if v is not None:
+            return v
+    if not o['return_samples']:
+        # the same analysis without sample columns: every feature column unchanged
+        d2 = run_cf(sig, o)
+        for k in exp:
+            if not same_values(d2[k].to_numpy().astype(float), exp[k]):
+                return VIOL(dict(sgn, kind=k, return_samples=False), '%s changes when return_samples=False' % k,
+                            expected=exp[k], observed=d2[k].tolist())
     if len(df) >= 1 and not (math.isnan(df['amp_consistency'].iloc[0]) and math.isnan(df['amp_consistency'].iloc[-1])
                              and math.isnan(df['period_consistency'].iloc[0]) and math.isnan(df['period_consistency'].iloc[-1])):
         return VIOL(dict(sgn, kind='edge-nan'), 'consistency of the first/last cycle is not NaN')
@@ -231,6 +247,10 @@ def spaces(tier, seed):
     if q:
         al = S.alphabet(6)
         out.append(ProductSpace('W(6,5)xcentring', S.word_dims(al, 5) + [opts], eval_pipeline, bounds={'letters': al}))
+        out.append(ProductSpace('W(3,7)-edges', S.word_dims(['a', 'd', 'n'], 7) + [[('thr1',), ('thr1', 'trough')]], eval_pipeline,
+                                describe='7-letter words (bursts with edges inside the table): consistency columns after recompute_edges'))
+        out.append(ProductSpace('W(4,5)xnosamp', S.word_dims(S.alphabet(4), 5) + [[('nosamp',), ('nosamp', 'trough')]], eval_pipeline,
+                                describe='the same with return_samples=False'))
     else:
         al = S.alphabet(6, seed, extra=2)
         out.append(ProductSpace('W(6,5)xcentring', S.word_dims(S.alphabet(6), 5) + [opts], eval_pipeline, bounds={'letters': S.alphabet(6)}))
